@@ -69,8 +69,9 @@ def spec_last_sep_common_prefix(ids):
 
 
 def root_cause(ids, printed):
-    """None when the printed stem is what the property asks for; else the id of the
-    listed root cause, or 'unexplained'."""
+    """None when the printed stem is what the property asks for; else a label of the root cause
+    (C17-F1 / C17-F2 are the labels of two repaired defects: they are no longer listed as known
+    findings, so a hit is a violation), or 'unexplained'."""
     want = spec_stem(ids)
     if printed == want:
         return None
@@ -358,6 +359,8 @@ def unrender(tok, prefixes):
         return ("lit", tok[1:-1], alt if alt != tok[1:-1] else None)
     if len(tok) >= 2 and tok[0] == "<" and tok[-1] == ">":
         return ("iri", tok[1:-1], None)
+    if tok.startswith("_:"):
+        return ("bnode", tok, None)
     return ("iri", expand(tok, prefixes), None)
 
 
@@ -633,7 +636,7 @@ def check_case(case, res, mb, stats, run, findings):
             kind, text, _alt = shown
             if text not in ids:
                 stats["spec_fail"].append(("shape example %r is not an instance of %s" % (text, c), replay))
-            elif kinds.get(text) == "B" or kind != "iri":
+            elif kind != spec_kind_of(kinds.get(text, "I")):
                 # a blank-node instance printed as <_:b>: node kind lost
                 if "C17-F3" in findings:
                     stats["known_hits"]["C17-F3"] = stats["known_hits"].get("C17-F3", 0) + 1
@@ -680,6 +683,22 @@ def check_case(case, res, mb, stats, run, findings):
 # --------------------------------------------------------------------------
 # known findings: pinned reproducers
 # --------------------------------------------------------------------------
+
+def load_corpus():
+    d = os.path.join(core.VERIF, "corpus", "C17")
+    out = []
+    if os.path.isdir(d):
+        for fn in sorted(os.listdir(d)):
+            if fn.endswith(".json"):
+                with open(os.path.join(d, fn)) as f:
+                    rp = json.load(f)
+                c = dict(rp["case"])
+                c["triples"] = [tuple(t) for t in c["triples"]]
+                c["only"] = rp.get("config")
+                c["corpus"] = fn
+                out.append(c)
+    return out
+
 
 def replay_finding(fid, f):
     """True iff the pinned reproducer still shows the defect on the real code"""
@@ -803,9 +822,12 @@ def run(tier, seed, replay=None):
              "stem_kinds": {"none": 0, "some": 0}, "known_hits": known_hits, "spec_fail": spec_fail,
              "corr_fail": corr_fail, "parse_problems": []}
     cases = []
+    n_corpus = 0
     if rp is None:
+        cases = load_corpus()          # regression cases of repaired defects: replayed first, must pass
+        n_corpus = len(cases)
         n_graphs = 2500 if tier == "thorough" else 450
-        cases = [gen_case(seed, i) for i in range(n_graphs)]
+        cases += [gen_case(seed, i) for i in range(n_graphs)]
     elif rp.get("kind") == "graph":
         c = dict(rp["case"])
         c["triples"] = [tuple(t) for t in c["triples"]]
@@ -851,6 +873,9 @@ def run(tier, seed, replay=None):
             run.notes.append("finding %s no longer reproduces (%s)" % (fid, detail))
 
     # ---------------- verdict ----------------
+    # regression-corpus and whole-graph failing inputs first: they are the most readable replays
+    spec_fail.sort(key=lambda wp: 0 if wp[1].get("kind") == "graph" and wp[1]["case"].get("corpus") else
+                   1 if wp[1].get("kind") == "graph" else 2)
     for what, payload in spec_fail[:5]:
         run.violation(what, payload, failing_input=True)
     if not spec_fail:
@@ -888,7 +913,7 @@ def run(tier, seed, replay=None):
                     (len(STRUCT_PREFIXES) * len(STRUCT_TAILS), len(cases), len(CONFIGS))),
         "exhaustive": True if rp is None else False,
         "exhaustive_scope": "function-level spaces listed in `rule` are enumerated completely; the end-to-end part is sampled",
-        "end_to_end": {"graphs": len(cases), "real_runs": stats["runs"], "stem_checks": stats["stem_checks"],
+        "end_to_end": {"graphs": len(cases), "corpus_cases_replayed_first": n_corpus, "real_runs": stats["runs"], "stem_checks": stats["stem_checks"],
                        "stems_printed": stats["stem_kinds"]["some"], "stems_withheld": stats["stem_kinds"]["none"],
                        "shape_example_checks": stats["shape_ex_checks"], "constraint_example_checks": stats["cons_ex_checks"],
                        "extraction_errors": stats["impl_errors"], "reader_monitor_skips": reader_bad},
